@@ -214,6 +214,7 @@ func main() {
 		{"results", []string{"results"}, c.phaseResults},
 		{"validators", []string{"validators"}, c.phaseValidators},
 		{"parameters", []string{"parameters"}, c.phaseParameters},
+		{"history", []string{"history", "block", "txs", "proof", "state-root", "results", "validators", "parameters", "light-block"}, c.phaseHistory},
 	}
 	timings := map[string]float64{}
 	if c.onlyPhase == "" || c.onlyPhase == "parameters" {
@@ -241,7 +242,7 @@ func main() {
 	r.Assume("light.Client is assembled by reflection on top of fake light-block providers (light.NewClient needs a libp2p host); everything executed afterwards is unchanged /repo and CometBFT code")
 	r.Assume("the consensus querier used by verifyParameters stands for light-client verified state (a fake returning the trusted parameters); no recorded Parameters sample exists, so the Meta was reconstructed to match the recorded ConsensusHash")
 	r.Assume("stateRootFromBlockTxs is only applied to a list that passed verifyTransactions (true in Core.fetchStateRootFromMetaTx and by construction here); on unverified lists it returns whatever the last transaction says")
-	r.Assume("normal form excludes: Block.Size (documented unverifiable), sub-second part of Block.Time, LastCommit height/round/block id (the header binds the hash over the commit signatures only), result events/log/info/codespace and begin/end-block events (TODO #6210; not covered by LastResultsHash), validator address/proposer priority/proposer/total power (not covered by the validator set hash), consensus-parameter Meta fields other than block max bytes/gas (not covered by ConsensusHash)")
+	r.Assume("normal form excludes: Block.Size (documented unverifiable), LastCommit height/round/block id (the header binds the hash over the commit signatures only), result events/log/info/codespace and begin/end-block events (TODO #6210; not covered by LastResultsHash), validator address/proposer priority/proposer/total power (not covered by the validator set hash), consensus-parameter Meta fields other than block max bytes/gas (not covered by ConsensusHash)")
 	r.Assume("block results at the latest trusted height are only height-checked (documented TODO #6210); the property quantifies over heights below the latest trusted one")
 	r.Assume("synthetic samples are evaluated by the exported functions only (their headers are unsigned)")
 	r.Finish(200)
